@@ -29,7 +29,9 @@ def run(prog):
     # uses of a balanced(..) result: as argument of push / gen_cutset / the return value
     uses = []
     for cs in te.calls:
-        if cs.callee.name in ("push", "gen_cutset"):
+        if cs.callee.name in ("push", "gen_cutset") or \
+                ((cs.callee.local or getattr(cs.callee, "res_local", False)) and cs.callee.name not in ("balanced", "init_vars", "get_vars")):
+            # ... or handed to a private helper that files it (a bucket, a finished list)
             for a in cs.args:
                 if any(mir.is_call(x, "balanced") for x in mir.subterms(a)) or \
                         (a[0] == "mutref" and any(mir.is_call(x, "balanced") for x in mir.subterms(te.state_in.get(cs.bb, {}).get(a[1], ())))):
